@@ -21,14 +21,17 @@ _API = ["Fb_new", "Fb_empty", "Fb_filled", "Fb_len", "Fb_is_empty", "Fb_clear", 
         "Fb_copy_once_from", "Fb_read_frame"]
 _DF = ["Df_deframe_line", "Df_deframe_crlf", "Df_deframe_null"]
 _READS = ["Fb_read_bytes", "Fb_read_byte", "Fb_try_read_byte", "Fb_try_read_bytes", "Fb_read_all", "Fb_read_and_copy_bytes", "Fb_try_read_exact"]
+_ASYNC = ["Tk_arf_pre", "Tk_arf_post", "Tk_aco_pre", "Tk_aco_post"]
 GEN_SCOPE = {
     "C01": _API, "C03": _API, "C04": _API + _DF,
     "C02": ["Fb_read_frame"] + _DF, "C05": _DF, "C06": ["Fb_read_frame"] + _DF,
-    "C07": ["Fb_read_frame", "Fb_io_read", "Ad_chain_read", "Ad_take_read"] + _DF,
+    "C07": ["Fb_read_frame", "Fb_io_read", "Ad_chain_read", "Ad_take_read"] + _DF + _ASYNC,
     "C08": ["Ad_chain_read"], "C09": ["Ad_take_read"],
     "C10": ["Fb_deframe", "Fb_mem_"] + _DF, "C11": ["Fb_try_parse"] + _READS,
     "C12": ["Fb_read_frame", "Fb_copy_once_from"],
     "C13": ["Ad_chain_write", "Ad_chain_flush", "Ad_take_write", "Ad_take_flush"],
+    "C14": _ASYNC, "C15": _ASYNC,
+    "C19": ["Es_escape_ascii", "Es_fb_escape_ascii"],
 }
 for _pid, _scope in GEN_SCOPE.items():
     REGISTRY[_pid].gen_scope = _scope
